@@ -394,5 +394,8 @@ def obligations(tier, seed):
                     add("C07.nodeheight.%s[tree=%s,dates=%s,batch=(2,)]" % (kind, ts, patterns[(k + 1) % 4]), "scn_nodeheight", (ts, patterns[(k + 1) % 4], kind, (2,)), "node-height transform log-Jacobian, batched", max_paths=3000)
             if T <= 4:
                 add("C07.logdiffrate[tree=%s]" % ts, "scn_logdiff", (ts, ()), "log-rate-difference transform")
+    for ts in ("((0,(1,2)),(3,(4,5)))", "(((4,5),3),((1,2),0))", "((0,1),((2,3),(4,5)))"):
+        for pat in ("hetero", "calendar"):
+            add("C07.nodeheight.ratios[tree=%s,dates=%s]" % (ts, pat), "scn_nodeheight", (ts, pat, "ratios", ()), "node-height transform log-Jacobian (6 taxa, nested clades on both sides of the root)", max_paths=3000)
     add("C07.logdiffrate[tree=((0,1),2),batch=(2,)]", "scn_logdiff", ("((0,1),2)", (2,)), "log-rate-difference transform, batched")
     return obs
